@@ -271,13 +271,12 @@ Theorem C09_package_state_quiet :
   /\ (forall m, In m pkg_var_methods -> method_reviewed m = true)
   /\ (forall w, In w shared_type_writes -> shared_write_benign w = true)
   /\ (forall w, In w (filter (in_pkg k_soyjs) shared_type_writes) -> reviewed_latent w = true)
-  /\ (forall w, In w (filter (in_pkg k_soyhtml) shared_type_writes) -> kind_of_write w = k_capped \/ reviewed_latent w = true)
-  /\ (forall w, In w reviewed_latent_writes -> site_mem w shared_type_writes = true).
+  /\ (forall w, In w (filter (in_pkg k_soyhtml) shared_type_writes) -> kind_of_write w = k_capped \/ reviewed_latent w = true).
 Proof.
   split; [exact package_vars_quiet|]. split; [exact package_writes_only_in_init|].
   split; [exact package_methods_reviewed|]. split; [exact shared_type_writes_benign|].
   split; [exact soyjs_never_writes_through_shared_types|].
-  split; [exact soyhtml_writes_through_shared_types_only_capped|exact reviewed_latent_writes_present].
+  exact soyhtml_writes_through_shared_types_only_capped.
 Qed.
 Print Assumptions C09_package_state_quiet.
 
